@@ -14,9 +14,11 @@ func ToDescriptiveStats(ss *stats.StreamStats) *model.DescriptiveStats {
 	}
 
 	mean := ss.Mean()
+	// copy: pointers into the live StreamStats would let later Adds rewrite a flushed report
+	dataMin, dataMax := ss.Min, ss.Max
 	return &model.DescriptiveStats{
-		Min:  &ss.Min,
-		Max:  &ss.Max,
+		Min:  &dataMin,
+		Max:  &dataMax,
 		Mean: &mean,
 		SD:   &sd,
 	}
